@@ -110,6 +110,7 @@ def run(chk):
     from . import shared
     shared.response_reads(chk, prog, "R1.exact_reads")
     shared.header_line_split(chk, prog, "R1.header_split", "humphrey::http::response::Response::from_stream")
+    shared.eof_is_error(chk, prog, "R1.eof_is_error", r"^humphrey::http::response::Response::from_stream$", "upstream response head")
     # ---- R2 bounded wait
     conn = [blk for blk, t in bi.calls_to(r"TcpStream::connect_timeout$")]
     plain = [blk for blk, t in bi.calls_to(r"TcpStream::connect$")]
